@@ -5,3 +5,4 @@ pub const STREAM_CLOSED_PREMATURELY: u32 = 0x3;
 pub const INVALID_TOPIC_NAME: u32 = 0x4;
 pub const REPLIER_ALREADY_BOUND: u32 = 0x5;
 pub const CLOUD_AUTH_FAILED: u32 = 0x6;
+pub const TOPIC_PATTERN_MISMATCH: u32 = 0x7;
